@@ -228,13 +228,15 @@ func (run *checkRun) report(obres []*ObResult, undecided []string, wall float64)
 		cov["explanation"] = "no obligations generated (see undecided)"
 	}
 	ev := evidence{PropertyID: id, Tier: run.tier, Seed: seedFromEnv(), Level: level, Coverage: cov, Assumptions: assumptions, WallS: round3(wall), Violations: violations}
-	data, _ := json.MarshalIndent(ev, "", " ")
-	os.MkdirAll(filepath.Join(verifDir, "evidence"), 0o755)
-	os.WriteFile(filepath.Join(verifDir, "evidence", id+".json"), append(data, '\n'), 0o644)
-	// last results for ledger-update
-	os.MkdirAll(filepath.Join(verifDir, "out", "last"), 0o755)
-	ld, _ := json.MarshalIndent(obres, "", " ")
-	os.WriteFile(filepath.Join(verifDir, "out", "last", id+".json"), ld, 0o644)
+	if !run.noEvidence {
+		data, _ := json.MarshalIndent(ev, "", " ")
+		os.MkdirAll(filepath.Join(verifDir, "evidence"), 0o755)
+		os.WriteFile(filepath.Join(verifDir, "evidence", id+".json"), append(data, '\n'), 0o644)
+		// last results for ledger-update
+		os.MkdirAll(filepath.Join(verifDir, "out", "last"), 0o755)
+		ld, _ := json.MarshalIndent(obres, "", " ")
+		os.WriteFile(filepath.Join(verifDir, "out", "last", id+".json"), ld, 0o644)
+	}
 	fmt.Printf("property %s: %d/%d obligations discharged over %d functions, %d violations, %.1fs\n", id, discharged, total, len(fnNames), violations, wall)
 	if run.verbose {
 		for _, o := range obres {
